@@ -12,7 +12,7 @@ Definition x_from (t : xfer) : addr := fst (fst t).
 Definition x_to (t : xfer) : addr := snd (fst t).
 Definition x_coins (t : xfer) : coins := snd t.
 (* the record a quarantined pair is added to *)
-Definition rec_key (t : xfer) : rkey := (x_to t, [x_from t]).
+Definition rec_key (t : xfer) : rkey := (x_to t, [trunc (x_from t)]).
 
 (* the (input, output) pairs an operation hands to the send restriction, and what it debits *)
 Definition transfers_of (o : op) : list xfer :=
@@ -89,7 +89,7 @@ Proof.
     + intros k _. rewrite Hr. reflexivity.
   - split; [|split].
     + intros a d. rewrite Hb. unfold bal_add. destruct (Pos.eqb a h); lia.
-    + intros k d. rewrite Hr, old_rset. destruct (rkey_eqb k (to, [from])) eqn:Ek; [|lia].
+    + intros k d. rewrite Hr, old_rset. destruct (rkey_eqb k (to, [trunc from])) eqn:Ek; [|lia].
       apply rkey_eqb_eq in Ek. subst k. rewrite Hcn. lia.
     + intros k [Hk|Hk]; [discriminate|]. rewrite Hr, rget_rset, rkey_eqb_neq by exact Hk. reflexivity.
 Qed.
